@@ -90,6 +90,8 @@ def run(ctx):
     def rec_gg(x1, x2):
         t = float(np.sqrt(np.sum(np.asarray(x1) ** 2) + np.sum(np.asarray(x2) ** 2)))
         if 0 < t < 1e-9 * rec['scale']: rec['knife'] = True
+        n1 = float(np.sqrt(np.sum(np.asarray(x1) ** 2))); n2 = float(np.sqrt(np.sum(np.asarray(x2) ** 2)))
+        if t > 0 and abs(n1 - n2) < 1e-9 * t: rec['knife'] = True                                      # |q1| < |q2| branch of ggivens decided by rounding
         return orig_gg(x1, x2)
     def rec_eig(B): r = orig_eig(B); rec['eig'].append([float(np.real(x)) for x in r]); return r
     def rec_sched(H, steps=5): r = orig_sched(H, steps=steps); rec['sched'] = [float(x) for x in r]; return r
